@@ -718,11 +718,23 @@ def search_failing(ctx, broken):
 
 
 MANIFEST = {
-    'level_text': 'Proof (in progress) + correspondence: parameter/constraint handling of the template classes is '
-                  'modelled in Gallina and compared with the real create_program / parameter_names on generated trees; '
-                  'the property clauses are evaluated from an independent specification of visible constraints and '
-                  'needed values.',
-    'level_note': 'see notes/C03.md',
-    'technique': 'Coq model + independent specification + correspondence check',
+    'level_text': 'Proof + correspondence.  Gallina model of parameter_names, the MappingPT constructor, the scope classes '
+                  '(lazy MappedScope, RangeScope, keys()/as_dict() forcing) and _create_program / build_waveform / '
+                  'get_measurement_windows of Table/Point/Function/AtomicMultiChannel/ParallelChannel/Sequence/Repetition/'
+                  'ForLoop/Mapping templates.  Proved for all trees and scopes (induction on the template): the model '
+                  'refines an independent lazy specification (obligations of all reached nodes: visible constraints with '
+                  'the environment their node sees, needed reads); (a) declared names suffice; (b) other names are '
+                  'irrelevant when the declared ones are supplied (full statement for incomplete assignments kept as '
+                  'C03_irrelevant_statement, not proved); (c) accepted iff every visible constraint holds, violation '
+                  'raised only for a false visible constraint; (d) a missing needed value never yields a program.  The '
+                  'model is tied to /repo by an exact correspondence check on generated trees x assignment families; '
+                  'check_spec evaluates the clauses from the specification on the user-level tree.',
+    'level_note': 'Not proved: equivalence of the specification on the user-level tree and on the constructed tree (merging '
+                  'of nested mappings) - covered by the correspondence only.  One known finding (FunctionPT: a missing '
+                  'parameter multiplied by a supplied 0 vanishes symbolically) where the model diverges from the code '
+                  '(model: error; code: program).  Trusted: Coq kernel, sympy on the generated polynomial fragment, '
+                  'harness.  One defect fixed in /repo (nested MappingPT dropped inner constraints).',
+    'technique': 'Coq proof (structural induction over the nested template type; refinement of a lazy obligation '
+                 'semantics) + correspondence check with an independent specification oracle',
     'design_ref': 'DESIGN.md §5 C03',
 }
